@@ -37,6 +37,7 @@
 #include <netinet/tcp.h>
 #include <poll.h>
 #include <random>
+#include <sys/file.h>
 #include <sys/socket.h>
 
 using namespace iora::network;
@@ -391,12 +392,24 @@ static int listenLoopback(int &port)
   port = ntohs(a.sin_port);
   return s;
 }
-static int freePort()
+// A loopback port nobody else uses: the transport sets SO_REUSEPORT on its listeners, so two servers of two
+// concurrently running children that happened to pick the same "free" port would silently SHARE the incoming
+// connections.  Ports come from the range reserved for these drivers (21000-21999) and are held with an flock on a
+// lock file for the life of the process.
+static int lockedPort()
 {
-  int port = 0;
-  int s = listenLoopback(port);
-  if (s >= 0) close(s);
-  return port;
+  mkdir("/tmp/vf_http_ports", 0777);
+  unsigned start = (unsigned)getpid() * 7919u + (unsigned)(vf::nowSec() * 1000.0);
+  for (unsigned k = 0; k < 1000; ++k)
+  {
+    int port = 21000 + (int)((start + k) % 1000);
+    std::string path = "/tmp/vf_http_ports/" + std::to_string(port) + ".lock";
+    int fd = open(path.c_str(), O_CREAT | O_RDWR | O_CLOEXEC, 0666);
+    if (fd < 0) continue;
+    if (flock(fd, LOCK_EX | LOCK_NB) == 0) return port; // fd stays open (and locked) until the process ends
+    close(fd);
+  }
+  return 0;
 }
 static int connectTo(int port)
 {
@@ -478,6 +491,19 @@ struct Deliveries
   unsigned long long currentSid = 0; // only requests of the connection under observation count (a late worker thread of
                                      // an earlier segmentation must not leak into this one)
   std::atomic<int> count{0};
+  // have the requests /m1 .. /m<n> of the connection under observation all been handed over?
+  bool haveIds(long n)
+  {
+    std::lock_guard<std::mutex> lk(m);
+    for (long id = 1; id <= n; ++id)
+    {
+      bool found = false;
+      for (auto &x : v)
+        if (x.sid == currentSid && x.key == id) found = true;
+      if (!found) return false;
+    }
+    return true;
+  }
 };
 
 static void runServerSide(const Case &c, long callTimeoutMs)
@@ -489,14 +515,15 @@ static void runServerSide(const Case &c, long callTimeoutMs)
   Deliveries &del = *new Deliveries; // never freed: a late worker thread may still touch it when the child ends
   for (int attempt = 0; attempt < 6 && !srv; ++attempt)
   {
-    port = freePort();
+    port = lockedPort();
     auto *s = new Srv("127.0.0.1", port);
     s->setDefaultHandler(
       [&](const HttpServer::Request &q, HttpServer::Response &r)
       {
         if (q.path == "/sid")
         {
-          r.set_content(std::to_string((unsigned long long)q.sid), "text/plain");
+          // session id + the pid of this child: the driver refuses to go on if somebody else's server answered
+          r.set_content(std::to_string((unsigned long long)q.sid) + " " + std::to_string((long)getpid()), "text/plain");
           return;
         }
         MsgObs m;
@@ -556,7 +583,7 @@ static void runServerSide(const Case &c, long callTimeoutMs)
       return;
     }
     long long t0 = nowMs();
-    while (warm.count < 1 && !eof && nowMs() - t0 < 5000)
+    while (warm.count < 1 && !eof && nowMs() - t0 < 20000)
     {
       pump(fd, buf, 50, eof);
       scanResponses(buf, warm);
@@ -567,6 +594,14 @@ static void runServerSide(const Case &c, long callTimeoutMs)
       return;
     }
     SessionId sid = (SessionId)strtoull(warm.lastBody.c_str(), nullptr, 10);
+    {
+      size_t sp = warm.lastBody.find(' ');
+      if (sp == std::string::npos || atol(warm.lastBody.c_str() + sp + 1) != (long)getpid())
+      {
+        g_run.infra = "the warm-up request was answered by another process' server";
+        return;
+      }
+    }
     buf.erase(0, warm.pos);
     {
       std::lock_guard<std::mutex> lk(del.m);
@@ -631,18 +666,19 @@ static void runServerSide(const Case &c, long callTimeoutMs)
     bool wantErr = c.wantEnd == "reject";
     long long t1 = nowMs();
     long limit = timedOutOnce ? std::max(150, c.waitMs / 10) : c.waitMs;
+    // what MUST be handed over are the requests /m1../m<mandatory> (waiting by id: a later request that is handed over
+    // first must not end the wait); an optional message (msgopt) is either handed over too or rejected
+    const bool opt = c.wantEnd == "msgopt";
+    const long mandatory = c.wantMsgs - (opt ? 1 : 0);
+    long long errSeenAt = 0;
     for (;;)
     {
       scanResponses(buf, rs);
-      bool have = del.count.load() >= c.wantMsgs && (rs.count >= c.wantMsgs || eof) && (!wantErr || eof || rs.sawError);
+      bool err = eof || rs.sawError;
+      if (err && !errSeenAt) errSeenAt = nowMs();
+      bool have = del.haveIds(mandatory) && (rs.count >= mandatory || eof) && (!wantErr || err);
+      if (have && opt) have = del.haveIds(mandatory + 1) || (err && nowMs() - errSeenAt > 40);
       if (have) break;
-      if (c.wantEnd == "msgopt" && (eof || rs.sawError))
-      {
-        // the optional message was (probably) rejected: give a delivery that is under way a moment, then stop
-        long long t2 = nowMs();
-        while (del.count.load() < c.wantMsgs && nowMs() - t2 < 40) usleep(500);
-        break;
-      }
       if (nowMs() - t1 > limit)
       {
         timedOutOnce = true;
@@ -651,7 +687,9 @@ static void runServerSide(const Case &c, long callTimeoutMs)
       pump(fd, buf, 5, eof);
     }
     // settle: anything beyond what was expected (an extra delivery, a late close) gets a short chance to show up
-    for (int i = 0; i < 3; ++i)
+    // (a wrong delivery racing with a close needs a little longer; the re-run of a rejection waits much longer)
+    const long long settleMs = c.waitMs >= 6000 ? 300 : (wantErr || eof ? 10 : 3);
+    for (long long ts = nowMs(); nowMs() - ts < settleMs;)
     {
       pump(fd, buf, 1, eof);
       scanResponses(buf, rs);
